@@ -5,6 +5,7 @@ import (
 	"crypto/x509"
 	"encoding/pem"
 	"fmt"
+	"io"
 	"net"
 	"os"
 	"os/exec"
@@ -98,12 +99,25 @@ type OpenSSLServer struct {
 	cmd  *exec.Cmd
 	Addr string
 	Log  string
+	// Stdin is set by StartOpenSSLInteractive: lines typed to s_server ("R" renegotiates,
+	// anything else is sent as application data)
+	Stdin io.WriteCloser
 }
 
 // StartOpenSSL starts `openssl s_server -rev` (an echo server that answers each line
 // reversed) with the given leaf kind ("rsa", "ecdsa", "ed25519") and extra arguments, on
 // a free loopback port, and waits until it accepts connections.
 func StartOpenSSL(leaf string, extra ...string) (*OpenSSLServer, error) {
+	return startOpenSSL(false, leaf, extra...)
+}
+
+// StartOpenSSLInteractive starts s_server without -rev and with a pipe on its standard input:
+// a line "R" makes it renegotiate (TLS <= 1.2), other lines are sent to the client.
+func StartOpenSSLInteractive(leaf string, extra ...string) (*OpenSSLServer, error) {
+	return startOpenSSL(true, leaf, extra...)
+}
+
+func startOpenSSL(interactive bool, leaf string, extra ...string) (*OpenSSLServer, error) {
 	if opensslPath == "" {
 		return nil, fmt.Errorf("no openssl")
 	}
@@ -125,16 +139,23 @@ func StartOpenSSL(leaf string, extra ...string) (*OpenSSLServer, error) {
 		l.Close()
 		logf := filepath.Join(d, fmt.Sprintf("s_server-%d.log", port))
 		lf, _ := os.Create(logf)
-		args := []string{"s_server", "-accept", fmt.Sprintf("127.0.0.1:%d", port), "-cert", filepath.Join(d, leaf+".crt"), "-key", filepath.Join(d, leaf+".key"), "-rev", "-naccept", "1"}
+		args := []string{"s_server", "-accept", fmt.Sprintf("127.0.0.1:%d", port), "-cert", filepath.Join(d, leaf+".crt"), "-key", filepath.Join(d, leaf+".key"), "-naccept", "1"}
+		if !interactive {
+			args = append(args, "-rev")
+		}
 		args = append(args, extra...)
 		cmd := exec.Command(opensslPath, args...)
 		cmd.Stdout, cmd.Stderr = lf, lf
+		var stdin io.WriteCloser
+		if interactive {
+			stdin, _ = cmd.StdinPipe()
+		}
 		if err := cmd.Start(); err != nil {
 			lf.Close()
 			return nil, err
 		}
 		lf.Close()
-		s := &OpenSSLServer{cmd: cmd, Addr: fmt.Sprintf("127.0.0.1:%d", port), Log: logf}
+		s := &OpenSSLServer{cmd: cmd, Addr: fmt.Sprintf("127.0.0.1:%d", port), Log: logf, Stdin: stdin}
 		// s_server prints (and flushes) "ACCEPT" once it listens.  Readiness is read from its
 		// log rather than probed on the port: a probing bind can collide with s_server's own.
 		ok := false
@@ -155,6 +176,9 @@ func StartOpenSSL(leaf string, extra ...string) (*OpenSSLServer, error) {
 }
 
 func (s *OpenSSLServer) Stop() string {
+	if s.Stdin != nil {
+		s.Stdin.Close()
+	}
 	if s.cmd != nil && s.cmd.Process != nil {
 		s.cmd.Process.Kill()
 		s.cmd.Wait()
